@@ -29,8 +29,9 @@
 (*  D5 (close drains)  Close of a listener closes every connection still   *)
 (*      in its queue; afterwards its Accept reports ErrListenerClosed.     *)
 (*  D6 (last one)  closing the last protocol listener closes the shared    *)
-(*      QUIC listener: handshakes in flight are refused, the accept loop   *)
-(*      ends (and gives back the transport reference: part 1, Q7).         *)
+(*      QUIC listener: handshakes in flight are refused before Close       *)
+(*      returns (quic-go waits for them), the accept loop ends (and gives  *)
+(*      back the transport reference: part 1, Q7).                         *)
 (*                                                                         *)
 (* The handshake is two steps - Start (the server has picked the TLS       *)
 (* config of the listener serving the offered ALPN) and Finish (the        *)
@@ -50,6 +51,7 @@ View == st
 
 NoLn == [st |-> "free", proto |-> "none", q |-> <<>>]
 NoConn == [st |-> "free", alpn |-> "none", ln |-> 0]
+Done(fate) == [st |-> fate, alpn |-> "none", ln |-> 0]     \* a connection whose fate is sealed (identity no longer matters)
 
 Init == /\ st = [lns |-> [l \in 1..MaxLn |-> NoLn], nl |-> 0, nc |-> 0, conns |-> [c \in 1..MaxConn |-> NoConn],
                  running |-> FALSE, started |-> FALSE]
@@ -74,7 +76,7 @@ Start(a) ==
   /\ st.running /\ st.nc < MaxConn
   /\ LET c == st.nc + 1
          ok == Serving(a) # {} IN
-     /\ st' = [st EXCEPT !.nc = c, !.conns[c] = [st |-> IF ok THEN "hs" ELSE "refused", alpn |-> a, ln |-> 0]]
+     /\ st' = [st EXCEPT !.nc = c, !.conns[c] = IF ok THEN [st |-> "hs", alpn |-> a, ln |-> 0] ELSE Done("refused")]
      /\ op' = [name |-> "start", c |-> c, alpn |-> a, ok |-> ok]
 
 \* the handshake completes; the accept loop takes the connection and dispatches it
@@ -82,38 +84,37 @@ Finish(c) ==
   /\ st.conns[c].st = "hs"
   /\ LET a == st.conns[c].alpn
          sv == Serving(a) IN
-     IF ~st.running
-     THEN \* the shared listener is gone (D6): refused
-          /\ st' = [st EXCEPT !.conns[c].st = "refused"]
-          /\ op' = [name |-> "finish", c |-> c, fate |-> "refused", ln |-> 0]
-     ELSE IF sv = {}
+     IF sv = {}
      THEN \* its listener was closed during the handshake (D4): closed by the server, the loop goes on
-          /\ st' = [st EXCEPT !.conns[c].st = "closed"]
+          /\ st' = [st EXCEPT !.conns[c] = Done("closed")]
           /\ op' = [name |-> "finish", c |-> c, fate |-> "closed-nolistener", ln |-> 0]
      ELSE LET l == CHOOSE x \in sv : TRUE IN
           IF Len(st.lns[l].q) < QueueLen
           THEN /\ st' = [st EXCEPT !.conns[c] = [st |-> "queued", alpn |-> a, ln |-> l], !.lns[l].q = Append(@, c)]
                /\ op' = [name |-> "finish", c |-> c, fate |-> "queued", ln |-> l]
-          ELSE /\ st' = [st EXCEPT !.conns[c].st = "closed"]
+          ELSE /\ st' = [st EXCEPT !.conns[c] = Done("closed")]
                /\ op' = [name |-> "finish", c |-> c, fate |-> "closed-full", ln |-> l]
 
 Accept(l) ==
   /\ st.lns[l].st = "open" /\ st.lns[l].q # <<>>
   /\ LET c == Head(st.lns[l].q) IN
-     /\ st' = [st EXCEPT !.lns[l].q = Tail(@), !.conns[c].st = "accepted"]
+     /\ st' = [st EXCEPT !.lns[l].q = Tail(@), !.conns[c] = Done("accepted")]
      /\ op' = [name |-> "accept", ln |-> l, c |-> c]
 
 CloseListener(l) ==
   /\ st.lns[l].st \in {"open", "closed"}
   /\ IF st.lns[l].st = "closed"
      THEN /\ st' = st
-          /\ op' = [name |-> "close", ln |-> l, again |-> TRUE, drained |-> {}, last |-> FALSE]
+          /\ op' = [name |-> "close", ln |-> l, again |-> TRUE, drained |-> {}, last |-> FALSE, refused |-> {}]
      ELSE LET dr == {st.lns[l].q[i] : i \in 1..Len(st.lns[l].q)}
-              last == Open = {l} IN
+              last == Open = {l}
+              \* closing the shared QUIC listener waits for the handshakes in flight and refuses them (D6)
+              rf == IF last THEN {c \in 1..MaxConn : st.conns[c].st = "hs"} ELSE {} IN
           /\ st' = [st EXCEPT !.lns[l] = [st |-> "closed", proto |-> "none", q |-> <<>>],
-                              !.conns = [c \in 1..MaxConn |-> IF c \in dr THEN [st.conns[c] EXCEPT !.st = "closed", !.ln = 0] ELSE st.conns[c]],
+                              !.conns = [c \in 1..MaxConn |-> IF c \in dr THEN Done("closed")
+                                                              ELSE IF c \in rf THEN Done("refused") ELSE st.conns[c]],
                               !.running = ~last]
-          /\ op' = [name |-> "close", ln |-> l, again |-> FALSE, drained |-> dr, last |-> last]
+          /\ op' = [name |-> "close", ln |-> l, again |-> FALSE, drained |-> dr, last |-> last, refused |-> rf]
 
 Next == \/ \E p \in Protos : AddListener(p)
         \/ \E a \in Alpns : Start(a)
@@ -161,6 +162,7 @@ CloseDrains == [][(op'.name = "close" /\ ~op'.again) => (\A c \in op'.drained : 
 (* vacuity probes (expected to be violated) *)
 ReachOverflow == ~(op.name = "finish" /\ op.fate = "closed-full")
 ReachOrphan == ~(op.name = "finish" /\ op.fate = "closed-nolistener")
-ReachRefusedLate == ~(op.name = "finish" /\ op.fate = "refused")
+ReachRefusedLate == ~(op.name = "close" /\ op.refused # {})
+NoHandshakeWithoutListener == (\E c \in 1..MaxConn : st.conns[c].st = "hs") => st.running
 ReachHandover == ~(op.name = "finish" /\ op.fate = "queued" /\ \E l \in 1..MaxLn : l < op.ln /\ st.lns[l].st = "closed")
 =============================================================================
